@@ -378,6 +378,33 @@ Theorem C13_chart_independent_of_request_context :
 Proof. exact chart_independent_of_request_context. Qed.
 Print Assumptions C13_chart_independent_of_request_context.
 
+(* ---- read faults (fix 0ab09db) -------------------------------------- *)
+
+(* A /chart/ request whose reader of a merged object fails after k records
+   (connection reset, reader bound to a done context) is never answered with
+   a chart of fewer reports: any chart produced under a fault is the
+   fault-free chart; and a fault on a day of the range whose merged object
+   exists fails the request.  (Before the fix the reader ended the data
+   silently at the fault: a chart of k reports, answered 200.) *)
+Theorem C13_chart_read_fault_is_error :
+  forall it lts ltg cfg read start end_ fault,
+  (forall name cd, handle_chart_fault it lts ltg fault cfg read start end_ = ChartOk name cd ->
+                   handle_chart it lts ltg cfg read start end_ = ChartOk name cd) /\
+  (forall fd k, fault = Some (fd, k) -> (start <= fd <= end_)%Z -> read fd <> RNotFound ->
+                forall name cd, handle_chart_fault it lts ltg fault cfg read start end_ <> ChartOk name cd).
+Proof. exact chart_read_fault_is_error. Qed.
+Print Assumptions C13_chart_read_fault_is_error.
+
+(* ... and it leaves every bucket, the chart object included, as it was *)
+Theorem C13_chart_fault_leaves_state :
+  forall (R : Type) (enc : R -> bytes) (dec : bytes -> option R) (proj : R -> report)
+         (ord : bucket bytes -> bucket bytes) pos it lts ltg cfg st s e fd k,
+  (s <= fd <= e)%Z -> read_state_day R dec proj st fd <> RNotFound ->
+  exists r, step R enc dec proj ord pos it lts ltg cfg st (OpChartFault s e fd k) = (st, RespChart r) /\
+            forall name cd, r <> ChartOk name cd.
+Proof. exact chart_fault_leaves_state. Qed.
+Print Assumptions C13_chart_fault_leaves_state.
+
 (* ---- non-vacuity --------------------------------------------------- *)
 
 (* the identity iteration orders with insertion sort satisfy iter_ok *)
